@@ -120,6 +120,32 @@ PROPS = {
                      "load→dump→load→dump to the same rules and final states under the same names; the watchdog and the "
                      "sanitizers watch for hangs and memory errors; non-trivial = the text is accepted by the parser",
                 assumptions=PROOF_ASSUME),
+    "C19": dict(level="proof", kinds=[("meta", 6), ("metaf", 1)], n=dict(quick=1000, thorough=40000, search=1000), timeout=240,
+                rule="metamorphic runs on generated pairs AND on shipped corpus automata (tests/aut_timbuk_smaller with its 400 "
+                     "expected verdicts, small_timbuk, moderate_artmc_timbuk, artmc_timbuk; no brute-force reference exists for "
+                     "them): each pair and a twin pair (random bijective renaming onto sparse numbers, shuffled rule insertion "
+                     "order, permuted symbol numbers); all 8 inclusion selections on both must agree with each other, across the "
+                     "twins, with the shipped expected verdict and (small operands) with the proved reference; emptiness equal; "
+                     "downward / upward simulation mapped through the renaming (count + order-independent hash); numbers of "
+                     "states after Reduce / trimming equal; 16 law instances (A⊆A, A⊆A∪B, A∩B⊆A, transitivity, A ≡ reduced / "
+                     "trimmed / re-indexed forms) with three selections; per-call budgets, overruns counted, never judged; "
+                     "non-trivial = a verdict was obtained and ≥ 30 law instances answered",
+                assumptions=PROOF_ASSUME + ["a broken law or a twin disagreement is a failing input by itself: each relation is a theorem for any exact implementation (Properties/C19.lean)"]),
+    "C20": dict(level="other", only_crashes=True,
+                kinds=[("incl", 6), ("inclall", 1), ("union", 2), ("unionpre", 2), ("uniondisj", 2), ("isect", 2), ("isectbu", 2),
+                       ("trim", 3), ("cand", 2), ("reduce", 3), ("simdown", 2), ("simup", 2), ("compl", 3), ("rename", 3),
+                       ("nfah_incl", 4), ("nfah_ops", 4), ("nfah_hist", 2), ("tah_store", 3), ("tah_hist", 4), ("lts", 4),
+                       ("mth", 3), ("mthrc", 2), ("bddincl", 5), ("bddinclall", 1), ("bddh", 5), ("bddtd", 1), ("parse", 8),
+                       ("meta", 1)],
+                n=dict(quick=6000, thorough=150000, search=6000),
+                rule="a sample of EVERY workload of C01–C19 (all case kinds, fresh seeds) executed in-process on the library built "
+                     "with AddressSanitizer + UndefinedBehaviorSanitizer (-fno-sanitize-recover) and "
+                     "-ftrivial-auto-var-init=pattern; only memory errors / undefined behaviour are judged here (a sanitizer "
+                     "report or a crash of the process is the violation; functional verdicts belong to the other properties); "
+                     "non-trivial = the case executed library code to completion without a report; distinct = case text",
+                assumptions=["what no model can exhibit (reads of uninitialised or freed memory, out-of-bounds accesses, signed overflow, iterator invalidation) is observed, not proved: the claim is partial",
+                             "uninitialised reads are only exposed through the poisoning pattern and, in the thorough tier, valgrind memcheck",
+                             "the bookkeeping whose failure IS the undefined behaviour is proved on the models: reference counts and table membership (C18), copy-on-write uniqueness before mutation (C11), the non-emptiness invariants the iterators rely on (C12), freshness of product-state numbers (C02)"]),
     "C14": dict(level="proof", kinds=[("rename", 1)], n=dict(quick=3000, thorough=60000, search=4000),
                 rule="ReindexStates (functor / functor without final states / into an existing destination / weak translator / "
                      "fresh translator), CollapseStates, TranslateSymbols with injective, merging, identity and sparse maps, "
@@ -167,6 +193,12 @@ def nontrivial(prop, r):
         return "emptyA=0 emptyC=0" in v
     if prop == "C14":
         return "inj=0" in v
+    if prop == "C20":
+        return "crash" not in v and "exception" not in v
+    if prop == "C19":
+        import re
+        m = re.search(r"laws=(\d+)", v)
+        return "verdict=?" not in v and bool(m) and int(m.group(1)) >= 30
     if prop == "C13":
         return "accepted=1" in v
     if prop == "C07":
